@@ -5,7 +5,10 @@ valid history; a deep copy T is taken just before the call.  If the library rais
 (1) the arm list unchanged and (2) a seeded continuation - always with a partial_fit and both kinds of query
 - to give bit-identical outputs on the bandit and on T *without* any generator grafting, so a rejected call
 that consumed randomness or left a half-published history is seen.  Calls that are not rejected are counted
-and excluded.  Constructor rejections: the caller's objects and a bystander bandit must be untouched."""
+and excluded.  Constructor rejections: the caller's objects and a bystander bandit must be untouched.
+
+As built: Catalogue extras: fit / first partial_fit with fewer rows than clusters, singular normal matrix with l2_lambda=0 (fit and partial_fit); continuations of never-fitted bandits may start with partial_fit.
+"""
 from mon import env  # noqa: F401
 import copy
 import hashlib
